@@ -4,6 +4,43 @@ from . import common as C
 from . import graph as G
 
 
+def gallina_ops(toks):
+    out = []; i = 0
+    while i < len(toks):
+        t = toks[i]
+        if t == 'A': out.append('GAddNode'); i += 1
+        elif t == 'R': out.append('GRemoveNode %s' % toks[i + 1]); i += 2
+        elif t == 'E': out.append('GAddEdge %s %s %s' % (toks[i + 1], toks[i + 2], toks[i + 3])); i += 4
+        elif t == 'X': out.append('GRemoveEdge %s %s' % (toks[i + 1], toks[i + 2])); i += 3
+        elif t == 'O': out.append('GRemoveOut %s' % toks[i + 1]); i += 2
+        else: raise ValueError(t)
+    return '[' + '; '.join(out) + ']'
+
+
+def extraction_crosscheck(exe_model, cases, work, k):
+    """Trusted-base reduction: the correspondence run executes the EXTRACTED model.  For k of this run's cases the final graph the
+    extracted code computes is pasted into a Coq file as a term, and the kernel checks by vm_compute that Model.Dag.grun -- the
+    very function the C10/C11 theorems are about -- yields that graph for the same operation list."""
+    pick = [c for c in cases if len(c) <= 120 and all(t.lstrip('-').isdigit() or t in 'AREXO' for t in c)]
+    step = max(1, len(pick) // k)
+    pick = pick[::step][:k]
+    f = os.path.join(work, 'xc_cases.txt')
+    open(f, 'w').write('\n'.join(' '.join(c) for c in pick) + '\n')
+    rc, out, _ = C.sh([exe_model, 'graphraw', f], timeout=600)
+    terms = [l for l in out.split('\n') if l.startswith('(mkDag')]
+    if rc != 0 or len(terms) != len(pick):
+        return {'agree': False, 'cases': len(pick), 'log': 'driver graphraw failed: rc=%s, %d terms for %d cases' % (rc, len(terms), len(pick))}
+    v = ['From Coq Require Import List NArith.', 'Import ListNotations.', 'From PieV Require Import Model.Dag.', 'Open Scope N_scope.',
+         'Definition ops : list (list (gop N)) := [' + ';\n  '.join(gallina_ops(c) for c in pick) + '].',
+         'Definition expected : list (dag N) := [' + ';\n  '.join(terms) + '].',
+         'Example extraction_agrees_with_kernel_evaluation : map (@grun N) ops = expected.',
+         'Proof. vm_compute. reflexivity. Qed.']
+    vf = os.path.join(work, 'XCheck.v')
+    open(vf, 'w').write('\n'.join(v) + '\n')
+    rc, out, dt = C.sh(['coqc', '-q', '-Q', os.path.join(C.COQ, 'theories'), 'PieV', vf], cwd=work, timeout=900)
+    return {'agree': rc == 0, 'cases': len(pick), 'ops': sum(len(c) for c in pick), 'wall_s': round(dt, 2), 'log': out[-1500:] if rc != 0 else ''}
+
+
 def run(prop, tier, seed, replay=None):
     t0 = time.time()
     problems = []      # things that break the proof or the correspondence
@@ -28,7 +65,7 @@ def run(prop, tier, seed, replay=None):
         import json
         cases = [json.load(open(replay))['case']]
     else:
-        n = 800 if tier == 'quick' else 20000
+        n = C.quick_n(800, tier) if tier == 'quick' else 20000
         max_ops, max_live = (60, 12) if tier == 'quick' else (200, 24)
         cases = G.corpus_cases()
         for i in range(n):
@@ -83,6 +120,11 @@ def run(prop, tier, seed, replay=None):
                     mo = model[ci] if ci < len(model) else []
                     first = next((j for j, (a, b) in enumerate(zip(proj(impl[ci]), proj(mo))) if a != b), min(len(impl[ci]), len(mo)))
                     divergences.append((toks, first, impl[ci][first] if first < len(impl[ci]) else None, mo[first] if first < len(mo) else None))
+    xc = None
+    if exe_model and not replay:
+        xc = extraction_crosscheck(exe_model, cases, work, 60 if tier == 'quick' else 400)
+        if not xc['agree']:
+            problems.append('extraction cross-check: evaluating grun inside Coq (vm_compute) and running the extracted OCaml model disagree, or the check could not run:\n' + xc.get('log', ''))
     import shutil
     shutil.rmtree(work, ignore_errors=True)
 
@@ -142,6 +184,7 @@ def run(prop, tier, seed, replay=None):
         'checker_cmd': proof['checker_cmd'],
         'trusted_base': C.TRUSTED_BASE + ['axioms reported by Print Assumptions: ' + (', '.join(proof['axioms']) or 'none (closed under the global context)')] + (['coqchk -o (independent re-check of the compiled property file and its dependencies): ' + proof['coqchk']] if proof.get('coqchk') else []),
         'theorems': proof['theorems'],
+        'extraction_crosscheck': ({k: v for k, v in xc.items() if k != 'log'} if xc else None),
         'evaluations': len(cases),
         'distinct_nontrivial': len(nontrivial),
         'rule': 'random + corpus DAG op sequences (add_node/add_edge/remove_edge/remove_outgoing/remove_node, ops on removed nodes, re-adds); '
